@@ -498,6 +498,8 @@ func c04(c *Ctx) (*report.Result, error) {
 	} else {
 		res.Undec("O4.7", "proxy-id table obligations", "", "C05 rule set failed")
 	}
+	res.RuleDoc["O4.8"] = "tasks lost with a target stream are not forgotten: when a sender incarnation ends, Run (after its shutdown wait, or in a deferred call) examines the id ring's outstanding entries - the only record of which source shards have tasks that were handed to the broken stream and not confirmed - so that something (re-send, or holding the acknowledgement back) can happen for them"
+	checkOutstandingOnExit(c, res, "O4.8")
 	res.RuleDoc["O4.5"] = "a target stream that (re)connects is not told a watermark above tasks still waiting for it: lastWatermark is written only from watermark-only batches (same rule as O1.6)"
 	checkReplayedWatermark(c, res, "O4.5")
 
@@ -776,4 +778,70 @@ func c04(c *Ctx) (*report.Result, error) {
 	res.Explanation = "SSA of proxy.streamRouting (identity of the latch handed to both Run calls through the goroutine closures' captured cell, AfterFunc wiring), of every worker function of sender and receiver (deferred Shutdown covering all exits), a construction-site inventory of proxyStreamSender / proxyStreamReceiver and a who-may-write inventory of the per-incarnation fields (id ring, channels, per-target ack map, lastSentMin). These are the mechanisms that keep a broken stream from leaving acknowledged-but-unconfirmed state behind; the enumeration of break points x reconnection orders itself is a fault-sequence statement and is not decided."
 	res.Assumptions = []string{"the source cluster resends from its acknowledged level after a reconnect (Temporal behaviour)"}
 	return res, nil
+}
+
+// checkOutstandingOnExit: see O4.8.
+func checkOutstandingOnExit(c *Ctx, res *report.Result, rule string) {
+	f := resolve(c, res, rule, anchor{"proxy", "*proxyStreamSender", "Run"})
+	if f == nil {
+		return
+	}
+	touchesRing := func(g *ssa.Function, from *ssa.BasicBlock, idx int) bool {
+		seen := map[*ssa.BasicBlock]bool{}
+		var walk func(b *ssa.BasicBlock, start int) bool
+		walk = func(b *ssa.BasicBlock, start int) bool {
+			for i := start; i < len(b.Instrs); i++ {
+				switch x := b.Instrs[i].(type) {
+				case *ssa.FieldAddr:
+					if flow.FieldName(x.X.Type(), x.Field) == "idRing" {
+						return true
+					}
+				case ssa.CallInstruction:
+					if cal := flow.StaticCallee(x.Common()); cal != nil && cal.Signature.Recv() != nil && flow.NamedIs(cal.Signature.Recv().Type(), proxyPkg, "proxyIDRingBuffer") {
+						return true
+					}
+				}
+			}
+			for _, s := range b.Succs {
+				if !seen[s] {
+					seen[s] = true
+					if walk(s, 0) {
+						return true
+					}
+				}
+			}
+			return false
+		}
+		return walk(from, idx)
+	}
+	// the shutdown wait: a receive from the latch's channel
+	var wait *ssa.UnOp
+	for _, b := range f.Blocks {
+		for _, ins := range b.Instrs {
+			if u, ok := ins.(*ssa.UnOp); ok && u.Op == token.ARROW {
+				if call, isC := u.X.(*ssa.Call); isC && call.Call.IsInvoke() && call.Call.Method.Name() == "Channel" {
+					wait = u
+				}
+			}
+		}
+	}
+	if wait == nil {
+		res.Undec(rule, "(*proxyStreamSender).Run: shutdown wait", fnPos(c.Prog, f), "the receive from the latch's channel was not found")
+		return
+	}
+	ok := false
+	pt := flow.After(wait)
+	if touchesRing(f, pt.Block, pt.Idx) {
+		ok = true
+	}
+	for _, d := range flow.Defers(f) {
+		if g := flow.DeferredFunc(d); g != nil && len(g.Blocks) > 0 {
+			for _, h := range append([]*ssa.Function{g}, flow.Callees(g, true)...) {
+				if h.Package() == f.Package() && len(h.Blocks) > 0 && touchesRing(h, h.Blocks[0], 0) {
+					ok = true
+				}
+			}
+		}
+	}
+	res.Check(ok, rule, "(*proxyStreamSender).Run: outstanding ring entries are examined when the stream ends", instrPos(c.Prog, wait), "the id ring is consulted after the shutdown wait or in a deferred call", "when the target stream ends, Run closes its channel and unregisters without looking at the id ring: tasks that were handed to this stream and not confirmed are lost with it, no source shard is made to resend them, and the next watermark confirmed by the reconnected (idle) target stream acknowledges them to their source")
 }
